@@ -149,8 +149,12 @@ pub uninterp spec fn has_file_name(p: Seq<char>) -> bool;
 /// directory with a final component among its ancestors has a final component itself
 pub axiom fn axiom_confined_has_name(file: Seq<char>, dir: Seq<char>)
     ensures path_confined(file, dir) && has_file_name(dir) ==> has_file_name(file);
+/// the final component of a path (meaningful when `has_file_name`)
+pub uninterp spec fn file_name_str(p: Seq<char>) -> Seq<char>;
 pub assume_specification[ std::path::Path::file_name ](p: &std::path::Path) -> (r: Option<&std::ffi::OsStr>)
-    ensures r is Some <==> has_file_name(path_str(p));
+    ensures r is Some <==> has_file_name(path_str(p)), r is Some ==> osstr_str(r->Some_0) == file_name_str(path_str(p));
+pub broadcast axiom fn axiom_asref_osstr(p: &std::ffi::OsStr)
+    ensures #[trigger] asref_path_str::<&std::ffi::OsStr>(p) == osstr_str(p);
 /// ASSUMPTION (the model of paths as text): every path is valid Unicode
 pub assume_specification[ std::path::Path::to_str ](p: &std::path::Path) -> (r: Option<&str>)
     ensures r is Some, r->Some_0@ == path_str(p);
@@ -164,6 +168,9 @@ pub broadcast axiom fn axiom_display_ref_socketaddr(x: &&std::net::SocketAddr, f
 /// ASSUMPTION: `thread::spawn` runs the closure once (its precondition must hold at the spawn); a panic inside stays inside the thread
 pub assume_specification<F: FnOnce() -> T + Send + 'static, T: Send + 'static>[ std::thread::spawn::<F, T> ](f: F) -> (r: std::thread::JoinHandle<T>)
     requires f.requires(());
+/// N5: the crate's `let _ = handle.join();` statements call this (the body is exactly that statement)
+#[verifier::external_body]
+pub fn join_and_ignore<T>(h: std::thread::JoinHandle<T>) { let _ = h.join(); }
 /// ghost log of files removed by a worker thread
 pub tracked struct FsLog { pub ghost removed: Seq<Seq<char>> }
 
